@@ -685,6 +685,13 @@ func (env *SpecEnv) evalCall(n *SNode) Val {
 		return vRaw("g_idseq", "(Array Int Int)")
 	case "anyseq":
 		return vRaw(st.fc.fresh("seq", "(Array Int Int)"), "(Array Int Int)")
+	case "compseq":
+		// compseq(a, b)[k] = a[b[k]]
+		a := env.eval(n.Args[0])
+		b := env.eval(n.Args[1])
+		c := st.fc.fresh("comp", "(Array Int Int)")
+		st.facts = st.facts.push(fmt.Sprintf("(forall ((g_k Int)) (! (= (select %s g_k) (select %s (select %s g_k))) :pattern ((select %s g_k))))", c, a.S, b.S, c))
+		return vRaw(c, "(Array Int Int)")
 	case "swapseq":
 		a := env.eval(n.Args[0])
 		i := env.eval(n.Args[1]).S
@@ -701,6 +708,26 @@ func (env *SpecEnv) evalCall(n *SNode) Val {
 	case "pc64":
 		st.fc.V.bitPrelude()
 		return vInt(sApp("g_pc64", env.eval(n.Args[0]).S), nil)
+	case "cmpapp":
+		// cmpapp(f, a, b): the boolean result of the opaque binary function value f on scalar arguments
+		f := env.eval(n.Args[0])
+		a := env.eval(n.Args[1])
+		b := env.eval(n.Args[2])
+		st.fc.declareFun("g_app2_IntIntInt_r0", []string{"Int", "Int", "Int"}, "Bool")
+		return vBool(sApp("g_app2_IntIntInt_r0", numVal(f), numVal(a), numVal(b)))
+	case "app":
+		f := env.eval(n.Args[0])
+		var as []Val
+		for _, a := range n.Args[1:] {
+			as = append(as, env.eval(a))
+		}
+		if f.K == KFunc && f.Fn != nil && f.Fn.Sym != "" {
+			return st.applyFuncValMode(f, as, true)
+		}
+		if f.K == KInt && f.T != nil {
+			return st.applyOpaque(f, f.T, as)
+		}
+		env.fail("app: not a function value")
 	case "ispow2":
 		st.fc.V.ispow2Prelude()
 		return vBool(sApp("g_ispow2", env.eval(n.Args[0]).S))
@@ -817,6 +844,33 @@ func (env *SpecEnv) evalCall(n *SNode) Val {
 			parts = append(parts, fmt.Sprintf("(forall ((%s Int)) (! (=> (< %s %s) (= (select %s %s) (select %s %s))) :pattern ((select %s %s))))", v, v, st.fc.entryAlloc(), cur, v, old, v, cur, v))
 		}
 		return vBool(sAnd(parts...))
+	case "elemIndexFrame":
+		// every reference that is not an element of (old) s keeps its old index field; membership is decided
+		// by the reference's own old index: 0 <= r.index < len(s) && s[r.index] == r (valid under idxOK(old s))
+		sv := env.eval(n.Args[0])
+		pt, ok := sliceElemType(sv.T).Underlying().(*types.Pointer)
+		if sv.K != KSlice || !ok {
+			env.fail("elemIndexFrame needs a slice of pointers")
+		}
+		structT := pt.Elem()
+		_, comps, _ := fieldComps(structT, "index")
+		if len(comps) != 1 {
+			env.fail("elemIndexFrame: no scalar field index")
+		}
+		oe := env.inOld()
+		hname := ptrHeapName(structT, comps[0])
+		cur := st.heapIn(env.heapMap(), hname, ptrSort(comps[0]))
+		old := st.heapIn(oe.heapMap(), hname, ptrSort(comps[0]))
+		if cur == old {
+			return vBool("true")
+		}
+		et := sliceElemType(sv.T)
+		ecs := flatComps(et)
+		hel := st.heapIn(oe.heapMap(), elemHeapName(et, ecs[0]), elemSort(ecs[0]))
+		*env.qcount++
+		r := fmt.Sprintf("g_q_ref_%d", *env.qcount)
+		member := fmt.Sprintf("(not (forall ((g_mk Int)) (=> (and (<= %s g_mk) (< g_mk %s)) (not (= (select (select %s %s) g_mk) %s)))))", sv.off(), sAdd(sv.off(), sv.length()), hel, sv.arr(), r)
+		return vBool(fmt.Sprintf("(forall ((%s Int)) (! (=> (and (< %s %s) (not %s)) (= (select %s %s) (select %s %s))) :pattern ((select %s %s))))", r, r, st.fc.entryAlloc(), member, cur, r, old, r, cur, r))
 	case "frameOnly":
 		// nothing that existed at function entry has changed except cells x[0:cap(x)] of x's array
 		sv := env.eval(n.Args[0])
@@ -870,6 +924,12 @@ func (env *SpecEnv) evalCall(n *SNode) Val {
 	// function-valued parameter / variable applied in a spec
 	if v, ok := env.lookup(n.Text); ok && v.K == KFunc && v.Fn != nil && v.Fn.Sym != "" {
 		return st.applyFuncValMode(v, args(), true)
+	}
+	if v, ok := env.lookup(n.Text); ok && v.K == KInt && v.T != nil && classify(v.T) == tcFunc {
+		return st.applyOpaque(v, v.T, args())
+	}
+	if v, ok := env.lookup(n.Text); ok && v.K == KFunc && v.Obj != nil {
+		env.fail("spec applies the declared function %s; use its contract instead", n.Text)
 	}
 	// user spec function
 	if sf := env.findSpec(n.Text); sf != nil {
